@@ -616,6 +616,11 @@ func genOp(r *hx.Rand) (QSpec, Op) {
 	case r.Chance(1, 20):
 		op.OpName = hx.Pick(r, []string{"Missing", "q", "Ünknown", " "})
 	}
+	if len(names) > 0 && r.Chance(1, 12) {
+		// a near miss of a real name: must stay a miss on every transport (no trimming, no case folding)
+		n := hx.Pick(r, names)
+		op.OpName = hx.Pick(r, []string{n + " ", " " + n, strings.ToLower(n), strings.ToUpper(n) + "X", n + "\n", "\t" + n})
+	}
 	// make it invalid sometimes
 	if r.Chance(1, 8) {
 		text := []rune(q.render())
